@@ -251,6 +251,7 @@ func c04(c *Ctx) {
 	c.checkReaderBounds()
 	c.checkLengthIsSum()
 	c.checkChildlessDispatch("R4.10")
+	c.checkFastForward()
 }
 
 func (c *Ctx) fieldOfAddr(fn *ssa.Function, addr ssa.Value) *types.Var {
@@ -930,9 +931,21 @@ func (c *Ctx) checkSizeQueryRewinds(rule string) {
 		var bad []string
 		complete := core.EnumPaths(q, 2, 100000, func(path []*ssa.BasicBlock) {
 			state := map[ssa.Value]string{}
+			// reader-typed fields of local struct values, as stored along this path
+			type fkey struct {
+				al  *ssa.Alloc
+				idx int
+			}
+			fieldVal := map[fkey]ssa.Value{}
 			for _, b := range path {
 				for _, ins := range b.Instrs {
 					switch x := ins.(type) {
+					case *ssa.Store:
+						if fa, ok := x.Addr.(*ssa.FieldAddr); ok {
+							if al, ok := fa.X.(*ssa.Alloc); ok {
+								fieldVal[fkey{al, fa.Field}] = x.Val
+							}
+						}
 					case *ssa.Call:
 						name, recv := methodCall(x)
 						if name != "Seek" || recv == nil {
@@ -961,15 +974,9 @@ func (c *Ctx) checkSizeQueryRewinds(rule string) {
 							}
 							if u, ok := rv.(*ssa.UnOp); ok && u.Op == token.MUL {
 								if al, ok := u.X.(*ssa.Alloc); ok {
-									for _, ref := range *al.Referrers() {
-										fa, ok := ref.(*ssa.FieldAddr)
-										if !ok {
-											continue
-										}
-										for _, r2 := range *fa.Referrers() {
-											if st, ok := r2.(*ssa.Store); ok && st.Addr == ssa.Value(fa) && !core.IsNilConst(st.Val) && isCursorT(st.Val.Type()) {
-												handed = append(handed, st.Val)
-											}
+									for k, fv := range fieldVal {
+										if k.al == al && fv != nil && !core.IsNilConst(fv) && isCursorT(fv.Type()) {
+											handed = append(handed, fv)
 										}
 									}
 								}
